@@ -76,6 +76,16 @@ def units(rng, tier):
             fmt = rng.choice(gen.FORMATS)
             ids = gen.ids_for(rng, len(v))
             us += group(lambda out, a=a, C=C, v=v, fmt=fmt, ids=ids, fam=fam: pack_unit(a, C, v, rng, fmt=fmt, out=out, cmp="bins", family=fam, ids=ids))
+    # covers whose control flow depends on WHICH items are present (class of the smallest item, emptiness of a class): instances made of
+    # threshold values plus zero-valued and tiny items, where an adaptor that treats an output type specially shows up
+    for _ in range(250 if tier == "quick" else 3000):
+        C, vals, fam = gen.covering_instance(rng, nmax=7, family="thresholds")
+        vals = list(vals) + rng.choice([[0], [0], [0, 0], [1], []])
+        rng.shuffle(vals)
+        a = rng.choice(["cover_34", "cover_34", "cover_23", "cover_dec"])
+        fmt = rng.choice(["list", "list", "dict_str"])
+        ids = gen.ids_for(rng, len(vals))
+        us += group(lambda out, a=a, C=C, v=vals, fmt=fmt, ids=ids: pack_unit(a, C, v, rng, fmt=fmt, out=out, cmp="bins", family="thresholds+zero", ids=ids))
     return us
 
 
